@@ -365,11 +365,24 @@ def strings_equalfold(I, args, ins):
     s, p = args
     if isinstance(s, str) and isinstance(p, str):
         return s.lower() == p.lower()
-    # over-approximation recorded as uninterpreted predicate that is implied by equality
-    f = z3.Function('EqualFold', z3.StringSort(), z3.StringSort(), z3.BoolSort())
-    r = f(zstr(s), zstr(p))
-    I.ctx.add_inv(z3.Implies(zstr(s) == zstr(p), r))
-    return r
+    # Three path classes, each with real strings in it so that witnesses replay natively: equal strings; strings
+    # that differ exactly in the letter case of their first byte; strings that are certainly not fold-equal
+    # (different lengths, or first bytes that are not case variants of each other). The classes do not cover
+    # every pair (an under-approximation of the paths through code that folds case; the pinned tree has none).
+    ctx = I.ctx
+    zs, zp = zstr(s), zstr(p)
+    if ctx.branch(zs == zp):
+        return True
+    t = ctx.fresh_str('equalfold.rest')
+    if ctx.branch(z3.Or(z3.And(zs == z3.Concat(z3.StringVal('A'), t), zp == z3.Concat(z3.StringVal('a'), t)),
+                        z3.And(zs == z3.Concat(z3.StringVal('a'), t), zp == z3.Concat(z3.StringVal('A'), t)))):
+        return True
+    a, b = z3.StrToCode(z3.SubString(zs, 0, 1)), z3.StrToCode(z3.SubString(zp, 0, 1))
+
+    def fold(c):
+        return z3.If(z3.And(c >= 65, c <= 90), c + 32, c)
+    ctx.assume(z3.Or(z3.Length(zs) != z3.Length(zp), z3.And(a >= 0, b >= 0, a < 128, b < 128, fold(a) != fold(b))))
+    return False
 
 
 @stub('strings.ToLower', 'strings.ToUpper', 'strings.TrimSpace', 'strings.Title')
@@ -1042,6 +1055,17 @@ def strings_splitn(I, args, ins):
         if n == 0:
             return NIL_SLICE
         return I.make_slice(s.split(sep, n - 1) if n > 0 else s.split(sep))
+    if isinstance(n, int) and isinstance(sep, str) and sep:
+        if n == 0:
+            return NIL_SLICE
+        if n == 1:
+            return I.make_slice([s])
+        if n == 2:      # exact: the text before the first separator and everything after it (one path split)
+            zs, zp = zstr(s), zstr(sep)
+            i = z3.IndexOf(zs, zp, 0)
+            if I.ctx.branch(i >= 0):
+                return I.make_slice([z3.SubString(zs, 0, i), z3.SubString(zs, i + len(sep), z3.Length(zs) - i - len(sep))])
+            return I.make_slice([s])
     raise Inconclusive('strings.SplitN symbolic')
 
 
